@@ -187,8 +187,31 @@ def pySort (ranks : List Int) (rev : Bool) (its : Items) : Items :=
   let sorted := if rev then sorted.reverse else sorted
   sorted.map (·.2)
 
+/-- `new_value is old_value` for the items of a list before and after a reordering: nodes and
+plain objects by identity; None, MISSING, small ints and the harness' (cached) strings are one
+object per value. -/
+def sameObj : Tree → Tree → Bool
+  | .leaf a, .leaf b => a == b
+  | .node m _, .node m' _ => m.id == m'.id
+  | _, _ => false
+
+/-- does `_notify_moved_items` find a position whose item changed? -/
+def anyMoved (old new : Items) : Bool :=
+  (old.zip new).any (fun p => !sameObj p.1.2 p.2.2)
+
 def permute (cfg : Cfg) (f : Forest) (t : Nat) (g : Items → Items) : Forest :=
   f.mapAt t (fun m xs => let ys := renumber (g xs); if cfg.reindexOnReorder then reindex m ys else ys)
+
+/-- `clear()` of a list or dict (6daab50): the removed values are detached and, when the
+container was not empty and notification is on, the removal is notified. -/
+def clearAndNotify (cfg : Cfg) (f : Forest) (notifyOn : Bool) (t : Nat) (m : Meta) (its : Items) : Forest :=
+  let f' := dropAll cfg f t m its
+  if cfg.notifyBulk && notifyOn && !its.isEmpty then notify f' [t] else f'
+
+/-- `sort` / `reverse` (6daab50): re-index, then notify the positions whose item changed. -/
+def permuteAndNotify (cfg : Cfg) (f : Forest) (notifyOn : Bool) (t : Nat) (its : Items) (g : Items → Items) : Forest :=
+  let f' := permute cfg f t g
+  if cfg.notifyBulk && notifyOn && anyMoved its (g its) then notify f' [t] else f'
 
 /-- `List.__delitem__` body after the guards (list.py:598-607). -/
 def rawDelList (cfg : Cfg) (f : Forest) (m : Meta) (its : Items) (pos : Nat) : Forest :=
@@ -506,23 +529,23 @@ def step (cfg : Cfg) (f : Forest) (notifyOn : Bool) : Op → Res
   | .lClear t =>
     match f.find? t with
     | some (.node m its) =>
-      if m.sealed then ⟨f, .err .perm⟩ else ⟨dropAll cfg f t m its, .ok⟩
+      if m.sealed then ⟨f, .err .perm⟩ else ⟨clearAndNotify cfg f notifyOn t m its, .ok⟩
     | _ => ⟨f, .skip⟩
   | .lSort t ranks rev =>
     match f.find? t with
-    | some (.node m _) =>
-      if m.sealed then ⟨f, .err .perm⟩ else ⟨permute cfg f t (pySort ranks rev), .ok⟩
+    | some (.node m its) =>
+      if m.sealed then ⟨f, .err .perm⟩ else ⟨permuteAndNotify cfg f notifyOn t its (pySort ranks rev), .ok⟩
     | _ => ⟨f, .skip⟩
   | .lReverse t =>
     match f.find? t with
-    | some (.node m _) =>
-      if m.sealed then ⟨f, .err .perm⟩ else ⟨permute cfg f t List.reverse, .ok⟩
+    | some (.node m its) =>
+      if m.sealed then ⟨f, .err .perm⟩ else ⟨permuteAndNotify cfg f notifyOn t its List.reverse, .ok⟩
     | _ => ⟨f, .skip⟩
   | .lIMul t n =>
     match f.find? t with
     | some (.node m its) =>
       if n ≤ 0 then
-        (if m.sealed then ⟨f, .err .perm⟩ else ⟨dropAll cfg f t m its, .ok⟩)
+        (if m.sealed then ⟨f, .err .perm⟩ else ⟨clearAndNotify cfg f notifyOn t m its, .ok⟩)
       else
         if m.sealed then ⟨f, .err .perm⟩ else
         let one : List VE := its.map (fun kv => match kv.2 with
@@ -585,13 +608,16 @@ def step (cfg : Cfg) (f : Forest) (notifyOn : Bool) : Op → Res
       if m.sealed then ⟨f, .err .perm⟩ else
       match its.getLast? with
       | none => ⟨f, .err .key⟩
-      | some (k, c) => ⟨(f.mapAt t (fun _ xs => eraseKey k xs)).addRoot
-          (if cfg.detachOnRemove then detachFrom .dict c else c), .ok⟩
+      | some (k, c) =>
+        let f' := (f.mapAt t (fun _ xs => eraseKey k xs)).addRoot
+          (if cfg.detachOnRemove then detachFrom .dict c else c)
+        -- 6daab50: popitem delivers a change notification
+        ⟨if cfg.notifyBulk && notifyOn then notify f' [t] else f', .ok⟩
     | _ => ⟨f, .skip⟩
   | .dClear t =>
     match f.find? t with
     | some (.node m its) =>
-      if m.sealed then ⟨f, .err .perm⟩ else ⟨dropAll cfg f t m its, .ok⟩
+      if m.sealed then ⟨f, .err .perm⟩ else ⟨clearAndNotify cfg f notifyOn t m its, .ok⟩
     | _ => ⟨f, .skip⟩
   | .dSetDefault t k v =>
     match f.find? t with
